@@ -481,7 +481,8 @@ def guard_rules(repo, rep):
     guards.guard_rule(rep, 'R-GUARD', f, evg.raise_conds, domain, 'the accepted grid domain (zones 0..60, eastings -2 830 000..3 830 000 m, northings 0..10 000 000 m)',
                       lambda nd: where(f, nd), integer=('zone',))
     guards.rejects_outside(rep, 'R-GUARD', f, evg.raise_conds, domain, {'east': 1, 'north': 1, 'zone': 1}, lambda nd: where(f, nd), 'the accepted grid domain')
-    rep.floor('R-GUARD', 8, 'zone, easting, northing, hemisphere; raising tests as predicates; rejection outside')
+    common.isg_zone_rule(repo, rep, 'grid2geo', ps[0], False, {ps[1]: Rat.sym('east'), ps[2]: Rat.sym('north')})
+    rep.floor('R-GUARD', 19, 'zone, easting, northing, hemisphere; raising tests as predicates; rejection outside; ten ISG zones and their neighbours')
     nw = find_newton(f)
     key = 'R-BOUND::geodepy/convert.py::grid2geo::newton'
     if nw is None:
